@@ -76,6 +76,64 @@ def check_case(ctx, c, nq):
     return out
 
 
+def apply_op(op, a, b, inplace=False):
+    import operator as o_
+
+    f = {"add": (o_.add, o_.iadd), "sub": (o_.sub, o_.isub), "mul": (o_.mul, o_.imul)}[op][1 if inplace else 0]
+    return f(a, b)
+
+
+def is_simplified(v):
+    return pc.kind_of(v) != "sum" or (len(set(frozenset(t._ops.items()) for t in v.terms)) == len(v.terms) and all(abs(t.coefficient) > 1e-8 for t in v.terms))
+
+
+def check_chain(ctx, ch):
+    """two operations of the specification on ONE evolving real object: the second operand of the second operation is the
+    object the library itself returned from the first (not a fresh copy); with and without the in-place operators"""
+    out = []
+    c1, c2, nq = ch["c1"], ch["c2"], ch["nq"]
+    for inplace in (False, True):
+        x1, y1 = pc.operand_real(c1["x"], 0), pc.operand_real(c1["y"], 1)
+        desc1 = "(%s %s%s %s)" % (pc.show(c1["x"]), c1["op"], "=" if inplace else "", pc.show(c1["y"]))
+        try:
+            r1 = apply_op(c1["op"], x1, y1, inplace and pc.kind_of(x1) != "num")
+            if ch["side"] == "x":
+                other = pc.operand_real(c2["y"], 2)
+                desc = "%s %s%s %s" % (desc1, c2["op"], "=" if inplace else "", pc.show(c2["y"]))
+                r2 = apply_op(c2["op"], r1, other, inplace and pc.kind_of(r1) != "num")
+            else:
+                other = pc.operand_real(c2["x"], 2)
+                desc = "%s %s %s" % (pc.show(c2["x"]), c2["op"], desc1)
+                snap = Snap([r1])
+                r2 = apply_op(c2["op"], other, r1, False)
+                if snap.changed():
+                    out.append(("chain:mutated", "%s modified its right operand (a result of the library)" % desc))
+        except Exception as ex:
+            out.append(("chain:raised", "%s then %s on the returned object%s raised %s: %s" % (desc1, c2["op"], " (in place)" if inplace else "", type(ex).__name__, str(ex)[:150])))
+            continue
+        want = pc.dense_abstract(c2["res"], nq)
+        try:
+            dr = pc.dense_real(r2, nq)
+        except Exception as ex:
+            out.append(("chain:result", "%s: result %r cannot be interpreted: %s" % (desc, r2, ex)))
+            continue
+        if not close(dr, want, 1e-8) or not pc.canon_close(pc.canon_real(r2), pc.canon_abstract(c2["res"])):
+            out.append(("chain:matrix" + (":inplace" if inplace else ""), "%s = %r does not denote the matrix of the specification's result %s" % (desc, r2, pc.show(c2["res"]))))
+            continue
+        # simplification and equality on what the library returned: simplify() yields a simplified operator with the same
+        # matrix, and it compares equal to a freshly built operator with the same matrix
+        if pc.kind_of(r2) == "sum":
+            rs = r2.simplify()
+            fresh = pc.operand_real(c2["res"], 1)
+            if not is_simplified(rs):
+                out.append(("chain:simplify", "%s = %r: simplify() returns %r, which still has duplicate or ~0 terms" % (desc, r2, rs)))
+            elif not close(pc.dense_real(rs, nq), want, 1e-8):
+                out.append(("chain:simplify:matrix", "%s: simplify() changed the denoted matrix" % desc))
+            elif is_simplified(fresh) and not (rs == fresh and fresh == rs):
+                out.append(("chain:eq", "%s: simplified result %r and the freshly built %r denote the same matrix but do not compare equal" % (desc, rs, fresh)))
+    return out
+
+
 def run(ctx):
     quick = ctx.tier == "quick"
     ctx.bounds = {"NQ": 2, "pool": 16, "ops": OPS, "depth": "every single operation; second operation from 1/40 (quick) or 1/3 (thorough) of the first-level results (deterministic hash)", "pairs": "all 256 two-qubit pairs" + ("" if quick else " + all 4096 three-qubit pairs")}
@@ -98,10 +156,41 @@ def run(ctx):
             ctx.count(c, kind=name + ":" + c["op"])
             for key, msg in check_case(ctx, c, consts["NQ"]):
                 ctx.violation(key, msg, c)
+    # chains on one evolving object
+    res = ctx.tlc("Pauli", constants=dict(NQ=2, Pool="<-PoolChain", Ops='{"add","sub","mul"}', Depth=3, ExpandMod=1, Emitting=True), invariants=INV, constraints=["DepthBound", "NoOverflow"], action_constraints=["Emit"], coverage=False, timeout=3000)
+    first = {}
+    allc = res.emitted
+    import json as _json
+
+    key = lambda v: _json.dumps(v, sort_keys=True)
+    pool_keys = set()
+    for c in allc:
+        first.setdefault(key(c["res"]), []).append(c)
+    chains = []
+    for c2 in allc:
+        for side in ("x", "y"):
+            for c1 in first.get(key(c2[side]), [])[:2]:
+                if c1 is not c2 and c1["res"]["t"] != "num":
+                    chains.append({"k": "chain", "c1": c1, "c2": c2, "side": side, "nq": 2})
+    if len(chains) < 500:
+        raise TLCError("only %d chains assembled" % len(chains))
+    rng_ = __import__("random").Random(ctx.seed)
+    lim = 6000 if quick else 60000
+    if len(chains) > lim:
+        chains = rng_.sample(chains, lim)
+    for ch, fails in zip(chains, ctx.pmap(check_chain, chains, chunksize=64)):
+        ctx.count({"k": "chain", "first": [ch["c1"]["op"], ch["c1"]["x"], ch["c1"]["y"]], "second": [ch["c2"]["op"], ch["side"]]}, kind="chain:%s-%s" % (ch["c1"]["op"], ch["c2"]["op"]))
+        for key_, msg in fails:
+            ctx.violation(key_, msg, ch)
     ctx.assumptions.append("equality clause is checked between operators (terms and sums), not against plain numbers")
 
 
 def replay(ctx, case):
+    if case.get("k") == "chain":
+        ctx.count({"k": "chain"})
+        for key, msg in check_chain(ctx, case):
+            ctx.violation(key, msg, case)
+        return
     ctx.count(case)
     for key, msg in check_case(ctx, case, case["nq"]):
         ctx.violation(key, msg, case)
